@@ -78,6 +78,19 @@ elif wave == 'w6':
              "sizes), was deactivated to a ghost and reloaded, had an earlier call fail part-way (bad key, bad value, comparison error, "
              "conflict) and is then used again, or an iterator / lazy sequence / result object outlives a change of its source.\n"
              "Prefer one change in the C code and one in the pure-Python code where the property covers both.\n\n")
+elif wave == 'w7':
+    focus = ("To spread independent reviewers over different kinds of defect, your two changes must be of these kinds "
+             "(other kinds are assigned to other reviewers):\n"
+             "  change A: a defect that needs a particular HISTORY of at least three steps through the container's life - e.g. grow "
+             "past a split, then delete until a leaf (or a whole subtree) becomes empty and is unlinked, then search / iterate / insert / "
+             "merge across the seam that the unlinking left; or build by update()/constructor from sorted data vs by single inserts; "
+             "it must stay invisible for containers that only ever grew.\n"
+             "  change B: a BOUNDARY defect - it shows only for an extreme position or value: the first or last key of a leaf, the first "
+             "or last leaf of the tree, a key equal to a separator key of an interior node, an empty or single-element container or operand, "
+             "the largest/smallest representable key or value of the family, a zero or negative weight, or an open bound (None) combined "
+             "with an exclusive flag.\n"
+             "Keep the TIME your work takes short: decide quickly, and run the full test suite only once per change.\n"
+             "Prefer one change in the C code and one in the pure-Python code where the property covers both.\n\n")
 elif wave and pid in FOCUS:
     fa, fb = FOCUS[pid]
     focus = ("To spread independent reviewers over the code base, your two changes must live in these regions "
